@@ -45,14 +45,10 @@ for nm, cov in (('pgram', 'MeshPredictionSchemeParallelogramDecoder::ComputeOrig
 ub('C02.kd_signed_dec', 'C02/kdsigned.cc', 'h_kd_signed_dec', unwind=6, max_alloc=64, timeout=900, fill_bound=6,
    bound='one INT32 / INT16 / INT8 attribute, 1 value, ANY decoded unsigned pattern and ANY minimum from the stream',
    covers='KdTreeAttributesDecoder::TransformAttributesToOriginalFormat, TransformAttributeBackToSignedType<int32_t/int16_t/int8_t>, PointAttribute::GetValue/SetAttributeValue')
-ub('C02.texcoords_dec', 'C02/texdec.cc', 'h_texcoords_dec', unwind=40, max_alloc=64, timeout=900, backend='kissat', tier='thorough',
+ub('C02.texcoords_dec', 'C02/texdec.cc', 'h_texcoords_dec', unwind=40, max_alloc=64, timeout=1500, backend='kissat', tier='thorough', known='F12',
    bound='1 face / 3 entries, ANY int32 positions and UV values, any data order and orientation flag',
    covers='MeshPredictionSchemeTexCoordsPortablePredictor::ComputePredictedValue<false>, GetPositionForEntryId, GetTexCoordForEntryId, VectorD arithmetic, IntSqrt')
-ub('C02.texcoords_dec_small', 'C02/texdec.cc', 'h_texcoords_dec', unwind=40, max_alloc=64, timeout=1700, backend='kissat', tier='extended', defines={'SMALL_VALUES': 1},
-   bound='tmp', covers='tmp')
-ub('C02.geom_normal_pred', 'C02/geomdec.cc', 'h_geom_normal_pred', unwind=12, max_alloc=64, timeout=900, backend='kissat', tier='thorough',
+ub('C02.geom_normal_pred', 'C02/geomdec.cc', 'h_geom_normal_pred', unwind=12, max_alloc=64, timeout=900, backend='kissat', tier='quick', known='F13',
    bound='1 triangle, ANY int32 positions, both prediction modes',
    covers='MeshPredictionSchemeGeometricNormalPredictorArea::ComputePredictedValue, GetPositionForCorner, CrossProduct, VectorD::AbsSum, VertexCornersIterator')
-ub('C02.geom_normal_pred_small', 'C02/geomdec.cc', 'h_geom_normal_pred', unwind=12, max_alloc=64, timeout=1700, backend='kissat', tier='extended', defines={'POS_BITS': 8},
-   bound='tmp', covers='tmp')
 META = {}
